@@ -1,6 +1,7 @@
 import BufrProofs.Codec
 import BufrProofs.CodecDynamic
 import BufrProofs.Bitmap
+import BufrProofs.BitmapCompressed
 /-
   C01 — Encode then decode returns every value and the subset structure unchanged.
 
@@ -118,17 +119,18 @@ theorem C01_dynamic_positions (T : Tables) (edition s4max : Nat) (s4len : Int) (
 
 /-- **the decoder the correspondence runs (`decodeDataB`: `bufr_decode_message_subsets` with the data
 present bit-map head of `bufr_apply_tables2node`) is the decoder the theorems above are about
-(`decodeData`)**, for uncompressed data, whenever neither the template nor any Table D sequence
-holds a 2 36 YYY operator or a class 33 element (`QuietTables`; the closure of such node lists
-under template expansion and under the decoder's on-the-fly expansion of delayed replications is
-proved, `quiet_ok`, `qclosed_of_quietTables`) — i.e. on every template of this property's quantifier.
-Partial: the compressed lock-step loop is not covered by a theorem (the streams tie it). -/
-theorem C01_bitmap_head_inert_partial (T : Tables) (hT : QuietTables T) (fuel : Nat) (t : Template)
-    (ht : ∀ n ∈ t.gabarit, quietNode n = true) (enforce : Enforce) (nsub : Nat)
+(`decodeData`)**, for uncompressed and compressed data, whenever neither the template nor any
+Table D sequence holds a 2 36 YYY operator or a class 33 element (`QuietTables`; the closure of such
+node lists under template expansion and under the decoder's on-the-fly expansion of delayed
+replications is proved, `quiet_ok`, `qclosed_of_quietTables`; the compressed lock-step loop keeps
+an invariant over all subset copies, `decodeCompressedLoopB_quiet`) — i.e. on every template of
+this property's quantifier. -/
+theorem C01_bitmap_head_inert (T : Tables) (hT : QuietTables T) (fuel : Nat) (t : Template)
+    (ht : ∀ n ∈ t.gabarit, quietNode n = true) (enforce : Enforce) (nsub : Nat) (compressed : Bool)
     (s4max : Nat) (data : List Nat) (from0 to0 : Int) :
-    decodeDataB T fuel t enforce nsub false s4max data from0 to0 =
-      decodeData T fuel t enforce nsub false s4max data from0 to0 :=
-  decodeDataB_quiet_uncompressed T fuel t enforce nsub s4max data from0 to0 (qclosed_of_quietTables T hT)
+    decodeDataB T fuel t enforce nsub compressed s4max data from0 to0 =
+      decodeData T fuel t enforce nsub compressed s4max data from0 to0 :=
+  decodeDataB_quiet T fuel t enforce nsub compressed s4max data from0 to0 (qclosed_of_quietTables T hT)
     (fun bsq0 h => expandSequence_quiet T hT fuel _ t.gabarit bsq0 ht h)
 
 /-- the dataset-building side: `bufr_create_datasubset` / `bufr_expand_datasubset` with the bit-map
